@@ -340,15 +340,9 @@ static void frame_head(void)
   for (i = 0; i < HEAD_SIZE; i++) {
     int may = 0;
     if (XCLS <= 1) { may = (i >= offsetof(vbi_decoder, prog_info) + (XCLS & 1) * sizeof (vbi_program_info) && i < offsetof(vbi_decoder, prog_info) + ((XCLS & 1) + 1) * sizeof (vbi_program_info));
-      /* aspect ratio packet: the current programme's one also sets aspect_source.
-         KNOWN_future_aspect_overwrites_current (suspected defect, reported, see C09.py): the packet of the FUTURE class is stored into
-         prog_info[0].aspect (the running programme), sets aspect_source and raises VBI_EVENT_ASPECT; without the define the frame
-         demands that a future-class packet leaves the current programme's record alone */
-#ifdef KNOWN_future_aspect_overwrites_current
-      if (XTYP == 9) may = may || IN_MEMBER(i, prog_info[0].aspect) || IN_MEMBER(i, aspect_source);
-#else
+      /* aspect ratio packet: the current programme's one also sets aspect_source; a packet of the FUTURE class leaves the current programme's
+         record and aspect_source alone (defect of the pinned tree, repaired: it was stored into prog_info[0].aspect and announced) */
       if (XTYP == 9 && XCLS == 0) may = may || IN_MEMBER(i, aspect_source);
-#endif
     }
     if (XCLS == 2) may = IN_MEMBER(i, network);
     if (!may) V_ASSERT(head0[i] == head1[i], "dec_frame_decoder_head");
